@@ -178,7 +178,13 @@ pub struct ChunkPlan {
     pub sizes: Vec<usize>,
     pub styles: Vec<ChunkStyle>,
     pub last: ChunkStyle,
+    /// number of trailer fields (0..=3, from TRAILER_FIELDS) between the last chunk and the empty line that ends the body
+    #[serde(default)]
+    pub trailers: u8,
 }
+
+/// Trailer fields are not part of the payload and are not exposed by the client: the body ends after them.
+pub const TRAILER_FIELDS: &[&str] = &["X-Checksum: 9f86d081884c7d65", "Server-Timing: db;dur=53, app;dur=47.2", "X-Empty:"];
 
 impl ChunkPlan {
     /// Partition `len` payload bytes into chunk sizes (all > 0).
@@ -262,8 +268,9 @@ pub fn chunk_plan() -> BoxedStrategy<ChunkPlan> {
         proptest::collection::vec(chunk_size_class(), 1..5),
         proptest::collection::vec(chunk_style(), 1..4),
         chunk_style(),
+        prop_oneof![4 => Just(0u8), 1 => 1u8..=3],
     )
-        .prop_map(|(sizes, styles, last)| ChunkPlan { sizes, styles, last })
+        .prop_map(|(sizes, styles, last, trailers)| ChunkPlan { sizes, styles, last, trailers })
         .boxed()
 }
 
@@ -272,8 +279,9 @@ pub fn small_chunk_plan() -> BoxedStrategy<ChunkPlan> {
         proptest::collection::vec(1usize..=40, 1..4),
         proptest::collection::vec(chunk_style(), 1..3),
         chunk_style(),
+        prop_oneof![4 => Just(0u8), 1 => 1u8..=3],
     )
-        .prop_map(|(sizes, styles, last)| ChunkPlan { sizes, styles, last })
+        .prop_map(|(sizes, styles, last, trailers)| ChunkPlan { sizes, styles, last, trailers })
         .boxed()
 }
 
